@@ -236,4 +236,77 @@ theorem packASlots_length (mr rows cols : Nat) (hmr : 0 < mr) :
   have := rangeChunks_mem mr hmr _ _ _ pr hpr
   exact panelA_length mr cols pr (by omega) (by omega)
 
+/-! ### packing from strided storage -/
+
+theorem flatMap_congr_mem {ι β : Type} (l : List ι) (f g : ι → List β)
+    (h : ∀ a ∈ l, f a = g a) : l.flatMap f = l.flatMap g := by
+  induction l with
+  | nil => rfl
+  | cons a t ih =>
+    rw [List.flatMap_cons, List.flatMap_cons, h a List.mem_cons_self,
+      ih (fun b hb => h b (List.mem_cons_of_mem _ hb))]
+
+/-- `pack_b_block` reads, for slot `(k, c)` of the block, storage offset
+`(r0 + k)·row_stride + (c0 + c)·col_stride` — in both branches, for every stride pair. -/
+theorem packBSrc_eq (nr rstr cstr r0 r1 c0 c1 : Nat) :
+    packBSrc nr rstr cstr r0 r1 c0 c1 =
+      (packBSlots nr (r1 - r0) (c1 - c0)).map
+        (Option.map fun kc => (r0 + kc.1) * rstr + (c0 + kc.2) * cstr) := by
+  unfold packBSrc packBSlots
+  rw [List.map_flatMap]
+  apply flatMap_congr_mem
+  intro panel _
+  rw [List.map_flatMap]
+  simp only [List.map_map]
+  split
+  · rename_i hfull
+    apply flatMap_congr_mem
+    intro row _
+    apply List.map_congr_left
+    intro col hcol
+    have hc : col < nr := List.mem_range.mp hcol
+    have hlt : panel * nr + col < c1 - c0 := by omega
+    simp only [Function.comp, hlt, if_true, Option.map_some]
+    congr 1
+    rw [Nat.add_mul, Nat.add_mul, Nat.add_mul, Nat.add_mul]
+    omega
+  · apply flatMap_congr_mem
+    intro row _
+    apply List.map_congr_left
+    intro col _
+    simp only [Function.comp]
+    split
+    · simp only [Option.map_some]
+      congr 1
+      rw [Nat.add_assoc c0]
+    · rfl
+
+/-- `pack_a_block` reads, for slot `(p·MR + j, col)` of the block, storage offset
+`(r0 + p·MR + j)·row_stride + (c0 + col)·col_stride`, for every stride pair. -/
+theorem packASrc_get (mr rstr cstr r0 r1 c0 c1 : Nat) (hmr : 0 < mr) {p j col : Nat}
+    (hp : r0 + p * mr < r1) (hj : j < mr) (hc : col < c1 - c0) :
+    (packASrc mr rstr cstr r0 r1 c0 c1)[p * (mr * (c1 - c0)) + (j * (c1 - c0) + col)]? =
+      some (if r0 + p * mr + j < r1 then some ((r0 + p * mr + j) * rstr + (c0 + col) * cstr)
+        else none) := by
+  have hmap : packASrc mr rstr cstr r0 r1 c0 c1 =
+      ((rangeChunks (r1 - r0) r0 r1 mr).flatMap (panelA mr (c1 - c0))).map
+        (Option.map fun rc => rc.1 * rstr + (c0 + rc.2) * cstr) := by
+    unfold packASrc
+    rw [List.map_flatMap]
+    apply flatMap_congr_mem
+    intro pr _
+    unfold panelA
+    rw [List.map_append, List.map_flatMap, List.map_flatMap]
+    congr 1
+    · apply flatMap_congr_mem
+      intro row _
+      rw [List.map_map]
+      rfl
+    · apply flatMap_congr_mem
+      intro _ _
+      simp
+  rw [hmap, List.getElem?_map,
+    packA_get_aux mr (c1 - c0) hmr (r1 - r0) r0 r1 (by omega) p j col hp hj hc]
+  by_cases h : r0 + p * mr + j < r1 <;> simp [h]
+
 end RtenVerif.Gemm
